@@ -16,7 +16,7 @@ type checker struct {
 	refKeys map[string]bool
 	cfg     string
 	histJS  []byte
-	// call tickets of the CompactIndex calls that succeeded so far in this case
+	// call tickets of the CompactIndex calls made so far in this case
 	compactions []int64
 }
 
@@ -30,7 +30,7 @@ func (ck *checker) violX(sig, detail string, rc *rec, extra map[string][]byte) {
 			ck.histJS = ck.histJS[:1<<20]
 		}
 	}
-	// Cases that run CompactIndex: once a compaction swapped the index in, the index may have gone
+	// Cases that run CompactIndex: once a compaction was started, the index may have gone
 	// back in time (stale reads, stale precondition checks) or lack entries; that defect has its own
 	// two signatures, since its symptoms cannot be told apart from here. The original signature stays
 	// in the detail.
